@@ -13,7 +13,7 @@ Lemma local_parts x : local_ok x = true ->
   imp (is_type x [FEE]) (fee_is_function_source x || nonempty (filter (fun y => negb (tyis y "keyword")) (list_child_segments x true))) = true /\
   imp (tyis x "column_reference") (nonempty (list_child_segments x true)) = true /\
   imp (ty_in x ["table_reference"; "object_reference"; "file_reference"]) (nonempty (children x)) = true /\
-  imp (tyis x "merge_statement") (merge_guard (list_child_segments x true) false false false) = true.
+  imp (tyis x "merge_statement") (merge_guard (list_child_segments x true) false) = true.
 Proof.
   unfold local_ok. rewrite !andb_true_iff. intros [[[[[[H1 H2] H3] H4] H5] H6] H7]. repeat split; assumption.
 Qed.
@@ -35,7 +35,7 @@ Lemma L5 x : escape_free x = true -> tyis x "column_reference" = true -> list_ch
 Proof. intros H T. apply nonempty_true. exact (imp_true _ _ (proj1 (proj2 (proj2 (proj2 (proj2 (local_parts x (ef_local x H))))))) T). Qed.
 Lemma L6 x : escape_free x = true -> ty_in x ["table_reference"; "object_reference"; "file_reference"] = true -> children x <> [].
 Proof. intros H T. apply nonempty_true. exact (imp_true _ _ (proj1 (proj2 (proj2 (proj2 (proj2 (proj2 (local_parts x (ef_local x H)))))))) T). Qed.
-Lemma L7 x : escape_free x = true -> tyis x "merge_statement" = true -> merge_guard (list_child_segments x true) false false false = true.
+Lemma L7 x : escape_free x = true -> tyis x "merge_statement" = true -> merge_guard (list_child_segments x true) false = true.
 Proof. intros H T. exact (imp_true _ _ (proj2 (proj2 (proj2 (proj2 (proj2 (proj2 (local_parts x (ef_local x H)))))))) T). Qed.
 
 (** partial list operations *)
